@@ -1,4 +1,5 @@
 import Mitx.Model.Sampling
+import Mitx.Lemmas.SamplingList
 import Mathlib.LinearAlgebra.Matrix.Trace
 import Mathlib.LinearAlgebra.Matrix.Determinant.Basic
 import Mathlib.LinearAlgebra.Matrix.Symmetric
@@ -209,5 +210,28 @@ theorem odd_antisymm_det_zero {n : Type} [Fintype n] [DecidableEq n] (A : Matrix
 
 example : accepts ⟨3, .antisymmetric, false, some 0, false⟩ = true ∧ accepts ⟨2, .hermitian, true, some 1, false⟩ = false := by decide
 example : realInterval 3 (-1) (1/2) = 1 := by decide +kernel
+
+
+/-! ## the executable entry-list model of `apply_symmetry` (the function the correspondence run drives) -/
+
+/-- **The list model establishes the requested symmetry, entry by entry**, for every dimension and every starting matrix:
+    `symmetric` ⇒ `W i j = W j i`; `antisymmetric` ⇒ `W i j = −W j i`; `hermitian` ⇒ `W i j = conj (W j i)`;
+    `antihermitian` ⇒ `W i j = −conj (W j i)`; `diagonal` ⇒ zero off the diagonal. (The matrix-level theorems above state the
+    same for Mathlib matrices over any field; these tie them to the executable definitions.) -/
+theorem applySymmetry_entries (n : ℕ) (a : List Tl.C) (i j : ℕ) (hi : i < n) (hj : j < n) :
+    entry n (applySymmetryOnly .symmetric n a) i j = entry n (applySymmetryOnly .symmetric n a) j i ∧
+    entry n (applySymmetryOnly .antisymmetric n a) i j = cneg (entry n (applySymmetryOnly .antisymmetric n a) j i) ∧
+    entry n (applySymmetryOnly .hermitian n a) i j = conj (entry n (applySymmetryOnly .hermitian n a) j i) ∧
+    entry n (applySymmetryOnly .antihermitian n a) i j = cneg (conj (entry n (applySymmetryOnly .antihermitian n a) j i)) ∧
+    (i ≠ j → entry n (applySymmetryOnly .diagonal n a) i j = ⟨0, 0⟩) :=
+  ⟨symmetric_entries n a i j hi hj, antisymmetric_entries n a i j hi hj, hermitian_entries n a i j hi hj,
+   antihermitian_entries n a i j hi hj, diagonal_entries n a i j hi hj⟩
+
+/-- **Traceless** on the list model: the trace is exactly zero after the traceless step, for every symmetry option and
+    dimension `n > 0`; the step changes only the diagonal (by the same amount everywhere), so the symmetry relations survive. -/
+theorem applySymmetry_traceless (sym : Symmetry) (n : ℕ) (hn : 0 < n) (a : List Tl.C) :
+    Sp.trace n (applySymmetry sym true n a) = ⟨0, 0⟩ ∧
+    ∀ i j, i < n → j < n → i ≠ j → entry n (applySymmetry sym true n a) i j = entry n (applySymmetryOnly sym n a) i j :=
+  ⟨traceless_trace_zero_list sym n hn a, fun i j hi hj hne => traceless_offdiag sym n a i j hi hj hne⟩
 
 end C12
